@@ -119,10 +119,10 @@ def run_inst(spec, run):
                 elif part == "to_list":
                     vs = [puan.variable(i) for i in ids]
                     if spec["nd"] == 1:
-                        e = [ctx.int("e%d" % j, 0, 1) for j in range(n)]
+                        e = [ctx.int("e%d" % j, -1, 2) for j in range(n)]      # "exactly the 1-entries": other values must not count
                         arr = pnd.boolean_ndarray(npshim.obj_vector(e), variables=vs)   # 1-D: default index
                     else:
-                        e = [[ctx.int("e%d_%d" % (i, j), 0, 1) for j in range(n)] for i in range(2)]
+                        e = [[ctx.int("e%d_%d" % (i, j), -1, 2) for j in range(n)] for i in range(2)]
                         arr = pnd.boolean_ndarray(npshim.obj_matrix(e), variables=vs)
                     d.update(e=e, res=arr.to_list())
                 elif part == "from_list":
